@@ -16,9 +16,21 @@ theorem addPathLoop_err (acc : List (Nat × Nat × Nat)) (v : Bytes) (e : OErr) 
     e = .other := by
   fun_induction addPathLoop acc v with
   | case1 acc a b c d r _ _ ih => exact ih h
-  | case2 acc a b c d r _ _ => injection h with h; exact h.symm
+  | case2 acc a b c d r _ _ ih => exact ih h
   | case3 acc a b c d r _ => cases h
   | case4 acc v _ => cases h
+
+/-- an ADD-PATH capability never makes Open.parse fail, whatever families and send/receive values it lists -/
+theorem addPathLoop_total (acc : List (Nat × Nat × Nat)) (v : Bytes) : ∃ l, addPathLoop acc v = .ok l := by
+  cases h : addPathLoop acc v with
+  | ok l => exact ⟨l, rfl⟩
+  | error e =>
+    exfalso
+    fun_induction addPathLoop acc v with
+    | case1 acc a b c d r _ _ ih => exact ih h
+    | case2 acc a b c d r _ _ ih => exact ih h
+    | case3 acc a b c d r _ => cases h
+    | case4 acc v _ => cases h
 
 theorem extNhLoop_err (acc : List (Nat × Nat × Nat)) (v : Bytes) (e : OErr) (h : extNhLoop acc v = .error e) :
     e = .other := by
